@@ -84,4 +84,48 @@ CHECKS.update({
         note="AdaFactor's closed form is optax.adafactor itself (outside the repository). FD runs with x64 off.",
     ),
 })
+CHECKS.update({
+    "C07": dict(
+        level="exploration",
+        technique="runtime monitor: tree-structure/shape/dtype signature fixed-point checker over generated option combinations, exception classifier (explicit rejection vs internal error), lax.scan carry as a real consumer, sharded declaration cross-check",
+        design_ref="DESIGN.md section 4 C07",
+        text="Random combinations of every constructor argument of distributed_shampoo (jit / pmap / sharded), sm3 and tearfree over trees with ranks 0-4 and unit dims are constructed, initialised and updated 4 times: signatures of state (treedef equality + leaf shapes/dtypes) must be a fixed point, updates must mirror the parameters, the step must be accepted as a lax.scan carry, any exception must be an explicit explanatory rejection raised on purpose, and in sharded mode init_fn / shape_and_dtype_fn / pspec_fn must describe the same tree with equal shapes and dtypes. 374 configurations quick (~5000 thorough).",
+        note="The rejection rule is deliberately lenient (documented in dsharness.classify_exception). 11 defects found by this monitor were repaired in /repo (see known_findings.json, status=fixed).",
+    ),
+    "C08": dict(
+        level="exploration",
+        technique="runtime monitor: metamorphic oracle (blocked tensor vs its blocks as separate leaves; leaf alone vs with companions) on real updates",
+        design_ref="DESIGN.md section 4 C08",
+        text="For generated layouts (1 or 2 blocked axes, ragged last blocks) and per-block gradient scales spanning 1e-6..1e6 the real update of the blocked tensor is compared block by block with the updates obtained when the same blocks are separate leaves (equal without grafting, parallel with one factor when grafting is on), and with the update of the same leaf when companion leaves of other shapes/scales are added; distributed_shampoo (x64 on/off, Newton/eigh, graft NONE/SGD/RMSProp) and Tearfree Shampoo.",
+        note="Relative tolerance 2e-5 (float32 reduction order), 1e-9 for Tearfree under x64; bitwise-equal counts reported.",
+    ),
+    "C09": dict(
+        level="exploration",
+        technique="runtime monitor: exact-covariance shadow state and PSD-order bracket / escaped-mass recurrence oracle after every frequent-directions step, four drivers",
+        design_ref="DESIGN.md section 4 C09",
+        text="The monitor keeps the exact b-discounted covariance (plus the ridge the configuration adds on the sketch span) and after every FD step of (A) _fd_update_root fed by frequent_directions_update, (B) Tearfree Sketchy via its public transformation, (C) the OCO sketches, (D) the packed sketches inside distributed_shampoo state, checks orthonormal-or-zero directions, l,t >= 0, S <= C <= S+tI, t' = b t + rho with rho recomputed independently, zero-gradient and low-rank exactness, stored inverse roots = (l+t+eps)^(-1/p).",
+        note="Driver D on statistics smaller than the batch maximum reproduces a recorded known finding (packed sketch truncated). PSD-order tolerance 1e-10 (float64) / 2e-4 (float32) of ||C||.",
+    ),
+    "C13": dict(
+        level="exploration",
+        technique="runtime monitor: cross-run equality oracle over device counts (pmap on D forced host devices, sharded under a D-device mesh) against the single-device run",
+        design_ref="DESIGN.md section 4 C13",
+        text="For trees whose number of statistics N covers every residue modulo D, the real update is run under jax.pmap on D = 1..8 devices (full / int16-quantised / compressed / eigh) and under a D-device mesh in sharded mode; every device's updates and complete final state must equal device 0's and the D=1 run (bitwise in most leaves; 2e-5 relative fallback, max observed 2.4e-7).",
+        note="Forced host-platform CPU devices; D exhaustive in 1..8; N in {1,2,3,5,7,12} quick, 14 values up to 29 thorough.",
+    ),
+    "C14": dict(
+        level="fault_enumeration",
+        technique="runtime monitor over crash points: every interruption step is resumed in a fresh interpreter from flax-serialized state and compared bitwise with the uninterrupted run",
+        design_ref="DESIGN.md section 4 C14",
+        text="For 14 optimizer variants (distributed_shampoo full/eigh/pmap-quantised/compressed +-/FD/RMSProp+schedule/sharded/AdaGrad, sm3 with and without momentum, Tearfree Shampoo/Sketchy/RMSProp graft) x 2 seeds, state_k is serialized after every k in 0..T and restored into a freshly constructed optimizer in a new process; all later updates and the final state must be bit-identical and the restored tree must have the template's structure. 196 fresh-process resumes quick (~900 thorough).",
+        note="Same machine and XLA build; serialization = flax.serialization.to_bytes/from_bytes.",
+    ),
+    "C15": dict(
+        level="exploration",
+        technique="runtime monitor: step-wise conformance of tearfree updates to an independent float64 reference of the documented chain, plus lr-linearity and merge metamorphic oracles",
+        design_ref="DESIGN.md section 4 C15",
+        text="Every update of tearfree(lr, options) over random option combinations (Shampoo under x64 at 1e-7 relative, Sketchy in float32 at 3e-3 on well-separated spectra) is compared with a NumPy float64 model of -lr(t)*momentum(weight_decay(graft(second_order(merge/pad g)))) with per-block 1e-6 eigenvalue cut-off and the frequent-directions root; runs with lr and 2*lr must be doubled to 4 ulps; shapes that merge to the same tensor must deliver the same values.",
+        note="Reference-discontinuity cases (eigenvalue within 2x of the cut-off, no spectral gap at the sketch rank, escaped mass exactly zero) are skipped and counted.",
+    ),
+})
 NOT_APPLICABLE = {}
